@@ -369,6 +369,10 @@ def guard_len_facts(f, b):
     out = []
     for (a, lab) in f.edge_dominators(b):
         o, outcome = f.cond_struct(a, lab)
+        if o[0] == "call" and o[1].name == "len" and o[1].args and re.fullmatch(r"\d+", str(outcome)):
+            # a match arm on the length itself (`match v.len() { 2 => v[1] .. }`)
+            out.append((f.describe_origin(f.origin(o[1].args[0]), deep=3), "Eq", int(outcome)))
+            continue
         if o[0] != "bin" or outcome not in ("true", "false"):
             continue
         op, x, y = o[1], o[2], o[3]
